@@ -1,5 +1,715 @@
-From Coq Require Import ZArith List Bool Lia.
+(* C29 - proofs about the model of automatic pickling (Model/M_Pickle.v). *)
+From Coq Require Import ZArith List Bool Lia Permutation Sorted.
 From CyVerif Require Import Model.M_Pickle.
 Import ListNotations.
 
-Lemma placeholder : True. Proof. exact I. Qed.
+(* ------------------------------------------------------------------ names *)
+Lemma name_eqb_eq : forall a b, name_eqb a b = true <-> a = b.
+Proof.
+  induction a as [|x a IH]; destruct b as [|y b]; simpl; split; intro H; try reflexivity; try discriminate.
+  - apply andb_true_iff in H. destruct H as [H1 H2]. apply N.eqb_eq in H1. apply IH in H2. subst. reflexivity.
+  - injection H as -> ->. apply andb_true_iff. split. apply N.eqb_refl. apply IH. reflexivity.
+Qed.
+
+Lemma name_eqb_refl : forall a, name_eqb a a = true.
+Proof. intro a. apply name_eqb_eq. reflexivity. Qed.
+
+Lemma name_eqb_neq : forall a b, a <> b -> name_eqb a b = false.
+Proof.
+  intros a b H. destruct (name_eqb a b) eqn:E; [|reflexivity]. apply name_eqb_eq in E. contradiction.
+Qed.
+
+Lemma name_leb_total : forall a b, name_leb a b = true \/ name_leb b a = true.
+Proof.
+  induction a as [|x a IH]; destruct b as [|y b]; simpl; auto.
+  destruct (N.ltb_spec x y); auto. destruct (N.ltb_spec y x); auto.
+Qed.
+
+Lemma name_leb_refl : forall a, name_leb a a = true.
+Proof. intro a. destruct (name_leb_total a a); assumption. Qed.
+
+Lemma name_leb_antisym : forall a b, name_leb a b = true -> name_leb b a = true -> a = b.
+Proof.
+  induction a as [|x a IH]; destruct b as [|y b]; simpl; intros H1 H2; try reflexivity; try discriminate.
+  destruct (N.ltb_spec x y) as [L|L].
+  - destruct (N.ltb_spec y x) as [L2|L2]; [lia|]. destruct (N.ltb_spec x y); [discriminate|lia].
+  - destruct (N.ltb_spec y x) as [L2|L2]; [discriminate|].
+    assert (x = y) by lia. subst. f_equal. apply IH; assumption.
+Qed.
+
+Lemma name_leb_trans : forall a b c, name_leb a b = true -> name_leb b c = true -> name_leb a c = true.
+Proof.
+  induction a as [|x a IH]; intros b c H1 H2; [reflexivity|].
+  destruct b as [|y b]; [discriminate|]. destruct c as [|z c]; [simpl in H2; discriminate|].
+  simpl in *.
+  destruct (N.ltb_spec x y) as [L1|L1].
+  - destruct (N.ltb_spec y z) as [L2|L2].
+    + destruct (N.ltb_spec x z); [reflexivity|lia].
+    + destruct (N.ltb_spec z y); [discriminate|]. destruct (N.ltb_spec x z); [reflexivity|lia].
+  - destruct (N.ltb_spec y x) as [L1'|L1']; [discriminate|]. assert (x = y) by lia. subst y.
+    destruct (N.ltb_spec x z) as [L2|L2]; [reflexivity|].
+    destruct (N.ltb_spec z x) as [L3|L3]; [discriminate|]. eapply IH; eassumption.
+Qed.
+
+(* ------------------------------------------------------------------ sorting *)
+Definition mle (a b : member) : Prop := name_leb (m_name a) (m_name b) = true.
+
+Lemma insert_perm : forall x l, Permutation (insert_m x l) (x :: l).
+Proof.
+  intros x l. induction l as [|y r IH]; simpl; [apply Permutation_refl|].
+  destruct (name_leb (m_name x) (m_name y)); [apply Permutation_refl|].
+  eapply Permutation_trans; [apply perm_skip; exact IH|apply perm_swap].
+Qed.
+
+Lemma sort_perm : forall l, Permutation (sort_m l) l.
+Proof.
+  induction l as [|x r IH]; simpl; [constructor|].
+  eapply Permutation_trans; [apply insert_perm|apply perm_skip; exact IH].
+Qed.
+
+Lemma insert_sorted : forall x l, StronglySorted mle l -> StronglySorted mle (insert_m x l).
+Proof.
+  intros x l H. induction H as [|y r Hs IH Hall]; simpl.
+  - constructor; constructor.
+  - destruct (name_leb (m_name x) (m_name y)) eqn:E.
+    + constructor. constructor; assumption.
+      constructor; [exact E|]. eapply Forall_impl; [|exact Hall].
+      intros a Ha. unfold mle in *. eapply name_leb_trans; eassumption.
+    + constructor; [exact IH|].
+      assert (Hyx : mle y x).
+      { unfold mle. destruct (name_leb_total (m_name y) (m_name x)) as [T|T]; [exact T|congruence]. }
+      eapply Permutation_Forall; [apply Permutation_sym; apply insert_perm|].
+      constructor; assumption.
+Qed.
+
+Lemma sort_sorted : forall l, StronglySorted mle (sort_m l).
+Proof.
+  induction l as [|x r IH]; simpl; [constructor|]. apply insert_sorted. exact IH.
+Qed.
+
+(* two sorted lists with the same elements and pairwise distinct names are equal *)
+Lemma sorted_perm_eq : forall l1 l2,
+  StronglySorted mle l1 -> StronglySorted mle l2 -> Permutation l1 l2 ->
+  NoDup (map m_name l1) -> l1 = l2.
+Proof.
+  induction l1 as [|a r1 IH]; intros l2 S1 S2 P ND.
+  - apply Permutation_nil in P. subst. reflexivity.
+  - destruct l2 as [|b r2]; [apply Permutation_sym in P; apply Permutation_nil in P; discriminate|].
+    inversion S1 as [|? ? S1r A1]; subst. inversion S2 as [|? ? S2r A2]; subst.
+    assert (Hab : a = b).
+    { assert (Ia : In a (b :: r2)) by (eapply Permutation_in; [exact P|left; reflexivity]).
+      assert (Ib : In b (a :: r1)) by (eapply Permutation_in; [apply Permutation_sym; exact P|left; reflexivity]).
+      destruct Ia as [->|Ia]; [reflexivity|]. destruct Ib as [->|Ib]; [reflexivity|].
+      rewrite Forall_forall in A1, A2. specialize (A1 b Ib). specialize (A2 a Ia). unfold mle in *.
+      assert (En : m_name a = m_name b) by (apply name_leb_antisym; assumption).
+      exfalso. simpl in ND. inversion ND as [|? ? Hn _]; subst. apply Hn. rewrite En. apply in_map. exact Ib. }
+    subst b. f_equal. apply IH; try assumption.
+    + eapply Permutation_cons_inv. exact P.
+    + simpl in ND. inversion ND; assumption.
+Qed.
+
+Lemma sort_m_unique : forall l1 l2,
+  Permutation l1 l2 -> NoDup (map m_name l1) -> sort_m l1 = sort_m l2.
+Proof.
+  intros l1 l2 P ND. apply sorted_perm_eq; try apply sort_sorted.
+  - eapply Permutation_trans; [apply sort_perm|]. eapply Permutation_trans; [exact P|].
+    apply Permutation_sym. apply sort_perm.
+  - eapply Permutation_NoDup; [|exact ND]. apply Permutation_map. apply Permutation_sym. apply sort_perm.
+Qed.
+
+Lemma all_members_perm : forall h, Permutation (all_members h) (gather h).
+Proof. intro h. apply sort_perm. Qed.
+
+Lemma all_members_sorted : forall h, StronglySorted mle (all_members h).
+Proof. intro h. apply sort_sorted. Qed.
+
+(* the layout (hence the checksum and the state order) depends only on the SET of members of the
+   class and its bases: re-ordering declarations or moving them between base and subclass keeps it *)
+Lemma layout_invariant : forall h1 h2,
+  Permutation (gather h1) (gather h2) -> NoDup (map m_name (gather h1)) -> all_members h1 = all_members h2.
+Proof. intros. apply sort_m_unique; assumption. Qed.
+
+Lemma in_all_members : forall h m, In m (all_members h) <-> In m (gather h).
+Proof.
+  intros h m. split; intro H.
+  - eapply Permutation_in; [apply all_members_perm|exact H].
+  - eapply Permutation_in; [apply Permutation_sym; apply all_members_perm|exact H].
+Qed.
+
+Lemma in_gather : forall h m,
+  In m (gather h) <-> exists c, In c h /\ In m (c_members c) /\ special (m_name m) = false.
+Proof.
+  intros h m. unfold gather. rewrite in_flat_map. split.
+  - intros [c [Hc Hm]]. unfold own_members in Hm. apply filter_In in Hm. destruct Hm as [Hm Hs].
+    exists c. repeat split; try assumption. apply negb_true_iff in Hs. exact Hs.
+  - intros [c [Hc [Hm Hs]]]. exists c. split; [exact Hc|]. unfold own_members. apply filter_In.
+    split; [exact Hm|]. rewrite Hs. reflexivity.
+Qed.
+
+(* ------------------------------------------------------------------ eligibility *)
+Definition quiet (f : flags) (e : modenv) : Prop :=
+  fx_lookup f = true \/ (g_cinit e = false /\ g_reduce e = false).
+
+Lemma quiet_cinit : forall f e, quiet f e -> negb (fx_lookup f) && g_cinit e = false.
+Proof. intros f e [H|[H _]]; rewrite H; [reflexivity|apply andb_false_r]. Qed.
+
+Lemma quiet_reduce : forall f e, quiet f e -> negb (fx_lookup f) && g_reduce e = false.
+Proof. intros f e [H|[_ H]]; rewrite H; [reflexivity|apply andb_false_r]. Qed.
+
+Lemma filter_nil_iff : forall (A : Type) (p : A -> bool) l,
+  filter p l = [] <-> forall x, In x l -> p x = false.
+Proof.
+  intros A p l. induction l as [|a r IH]; simpl; split; intro H.
+  - intros x [].
+  - reflexivity.
+  - destruct (p a) eqn:E; [discriminate|]. intros x [->|Hx]; [exact E|]. apply IH; assumption.
+  - destruct (p a) eqn:E.
+    + rewrite (H a (or_introl eq_refl)) in E. discriminate.
+    + apply IH. intros x Hx. apply H. right. exact Hx.
+Qed.
+
+(* the documented rule: "generate __reduce__ iff each member is convertible to Python and there
+   is no __cinit__"; structs need auto_pickle(True); auto_pickle(False) / a user __reduce__ switch
+   it off *)
+Definition documented_rule (f : flags) (c : cls) (bs : list cls) : Prop :=
+  existsb c_reduce (c :: bs) = false /\
+  c_auto c <> Some false /\
+  existsb c_cinit (c :: bs) = false /\
+  (forall m, In m (all_members (c :: bs)) -> non_py f (m_kind m) = false) /\
+  ((forall m, In m (all_members (c :: bs)) -> is_struct (m_kind m) = false) \/ c_auto c = Some true).
+
+Lemma decide_pickle_iff : forall f e c bs,
+  quiet f e ->
+  ((exists ms, decide f e (c :: bs) = InjectPickle ms) <-> documented_rule f c bs).
+Proof.
+  intros f e c bs Q. unfold documented_rule, decide, reduce_in_scope.
+  rewrite (quiet_reduce f e Q). rewrite orb_false_r.
+  destruct (existsb c_reduce (c :: bs)) eqn:ER.
+  { split; [intros [ms H]; discriminate|intros [H _]; discriminate]. }
+  assert (Hon : (exists ms, decide_on f e (c :: bs) = InjectPickle ms) <->
+                (existsb c_cinit (c :: bs) = false /\
+                 (forall m, In m (all_members (c :: bs)) -> non_py f (m_kind m) = false) /\
+                 ((forall m, In m (all_members (c :: bs)) -> is_struct (m_kind m) = false) \/
+                  c_auto c = Some true))).
+  { unfold decide_on. rewrite (quiet_cinit f e Q). rewrite orb_false_r.
+    destruct (existsb c_cinit (c :: bs)) eqn:EC.
+    { split; [intros [ms H]; discriminate|intros [H _]; discriminate]. }
+    destruct (filter (fun m => non_py f (m_kind m)) (all_members (c :: bs))) as [|np1 npr] eqn:ENP.
+    2:{ split; [intros [ms H]; discriminate|].
+        intros [_ [H _]]. exfalso.
+        assert (I : In np1 (filter (fun m => non_py f (m_kind m)) (all_members (c :: bs)))) by (rewrite ENP; left; reflexivity).
+        apply filter_In in I. destruct I as [I1 I2]. rewrite (H _ I1) in I2. discriminate. }
+    pose proof (proj1 (filter_nil_iff _ _ _) ENP) as HNP.
+    destruct (filter (fun m => is_struct (m_kind m)) (all_members (c :: bs))) as [|s1 sr] eqn:EST.
+    { pose proof (proj1 (filter_nil_iff _ _ _) EST) as HST.
+      split; [intros _|intros _; eexists; reflexivity].
+      split; [reflexivity|]. split; [exact HNP|]. left. exact HST. }
+    simpl head_auto.
+    destruct (c_auto c) as [[|]|] eqn:EA.
+    - split; [intros _|intros _; eexists; reflexivity].
+      split; [reflexivity|]. split; [exact HNP|]. right. reflexivity.
+    - split; [intros [ms H]; discriminate|]. intros [_ [_ [H|H]]]; [|discriminate].
+      exfalso. assert (I : In s1 (filter (fun m => is_struct (m_kind m)) (all_members (c :: bs)))) by (rewrite EST; left; reflexivity).
+      apply filter_In in I. destruct I as [I1 I2]. rewrite (H _ I1) in I2. discriminate.
+    - split; [intros [ms H]; discriminate|]. intros [_ [_ [H|H]]]; [|discriminate].
+      exfalso. assert (I : In s1 (filter (fun m => is_struct (m_kind m)) (all_members (c :: bs)))) by (rewrite EST; left; reflexivity).
+      apply filter_In in I. destruct I as [I1 I2]. rewrite (H _ I1) in I2. discriminate. }
+  destruct (c_auto c) as [[|]|] eqn:EA.
+  - rewrite Hon. split.
+    + intros [A [B C]]. split; [reflexivity|]. split; [discriminate|]. split; [exact A|]. split; [exact B|exact C].
+    + intros [_ [_ [A [B C]]]]. split; [exact A|]. split; [exact B|exact C].
+  - split; [intros [ms H]; discriminate|]. intros [_ [H _]]. exfalso. apply H. reflexivity.
+  - rewrite Hon. split.
+    + intros [A [B C]]. split; [reflexivity|]. split; [discriminate|]. split; [exact A|]. split; [exact B|exact C].
+    + intros [_ [_ [A [B C]]]]. split; [exact A|]. split; [exact B|exact C].
+Qed.
+
+Lemma decide_pickle_members : forall f e h ms,
+  decide f e h = InjectPickle ms -> ms = all_members h.
+Proof.
+  intros f e h ms H. destruct h as [|c bs]; [discriminate|]. unfold decide in H.
+  destruct (reduce_in_scope f e (c :: bs)); [discriminate|].
+  assert (Hon : decide_on f e (c :: bs) = InjectPickle ms -> ms = all_members (c :: bs)).
+  { unfold decide_on. intro D.
+    destruct (existsb c_cinit (c :: bs) || negb (fx_lookup f) && g_cinit e); [discriminate|].
+    destruct (filter (fun m => non_py f (m_kind m)) (all_members (c :: bs))); [|discriminate].
+    destruct (filter (fun m => is_struct (m_kind m)) (all_members (c :: bs))).
+    - injection D as <-. reflexivity.
+    - destruct (match head_auto (c :: bs) with Some true => true | _ => false end); [|discriminate].
+      injection D as <-. reflexivity. }
+  destruct (c_auto c) as [[|]|]; [apply Hon; exact H|discriminate|apply Hon; exact H].
+Qed.
+
+(* precedence of the refusal reasons: __cinit__, then unconvertible members, then structs *)
+Lemma decide_refusal : forall f e c bs r ns,
+  decide f e (c :: bs) = InjectRaise r ns ->
+  match r with
+  | RCinit => existsb c_cinit (c :: bs) || negb (fx_lookup f) && g_cinit e = true
+  | RNonPy => existsb c_cinit (c :: bs) = false /\ ns <> [] /\
+              ns = map m_name (filter (fun m => non_py f (m_kind m)) (all_members (c :: bs)))
+  | RStruct => existsb c_cinit (c :: bs) = false /\ c_auto c <> Some true /\ ns <> [] /\
+               (forall m, In m (all_members (c :: bs)) -> non_py f (m_kind m) = false) /\
+               ns = map m_name (filter (fun m => is_struct (m_kind m)) (all_members (c :: bs)))
+  end.
+Proof.
+  intros f e c bs r ns H. unfold decide in H.
+  destruct (reduce_in_scope f e (c :: bs)); [discriminate|].
+  assert (Hon : decide_on f e (c :: bs) = InjectRaise r ns -> c_auto c <> Some false ->
+    match r with
+    | RCinit => existsb c_cinit (c :: bs) || negb (fx_lookup f) && g_cinit e = true
+    | RNonPy => existsb c_cinit (c :: bs) = false /\ ns <> [] /\
+                ns = map m_name (filter (fun m => non_py f (m_kind m)) (all_members (c :: bs)))
+    | RStruct => existsb c_cinit (c :: bs) = false /\ c_auto c <> Some true /\ ns <> [] /\
+                 (forall m, In m (all_members (c :: bs)) -> non_py f (m_kind m) = false) /\
+                 ns = map m_name (filter (fun m => is_struct (m_kind m)) (all_members (c :: bs)))
+    end).
+  { unfold decide_on. intros D _.
+    destruct (existsb c_cinit (c :: bs) || negb (fx_lookup f) && g_cinit e) eqn:EC.
+    { injection D as <- <-. reflexivity. }
+    apply orb_false_iff in EC. destruct EC as [EC _].
+    destruct (filter (fun m => non_py f (m_kind m)) (all_members (c :: bs))) as [|a r0] eqn:ENP.
+    2:{ injection D as <- <-. split; [exact EC|]. split; [discriminate|reflexivity]. }
+    pose proof (proj1 (filter_nil_iff _ _ _) ENP) as HNP.
+    destruct (filter (fun m => is_struct (m_kind m)) (all_members (c :: bs))) as [|s1 sr] eqn:EST; [discriminate|].
+    simpl head_auto in D.
+    destruct (c_auto c) as [[|]|] eqn:EA; [discriminate| |].
+    - injection D as <- <-. split; [exact EC|]. split; [discriminate|]. split; [discriminate|]. split; [exact HNP|reflexivity].
+    - injection D as <- <-. split; [exact EC|]. split; [discriminate|]. split; [discriminate|]. split; [exact HNP|reflexivity]. }
+  destruct (c_auto c) as [[|]|] eqn:EA; [apply Hon; [exact H|discriminate]|discriminate|apply Hon; [exact H|discriminate]].
+Qed.
+
+(* with the repaired lookup the module environment is irrelevant *)
+Lemma decide_fx_lookup_env : forall f e1 e2 h, fx_lookup f = true -> decide f e1 h = decide f e2 h.
+Proof.
+  intros f e1 e2 h F. destruct h as [|c bs]; [reflexivity|].
+  unfold decide, reduce_in_scope, decide_on. rewrite F. simpl negb. simpl andb. reflexivity.
+Qed.
+
+(* with the repaired pointer rule an eligible class has no pointer member *)
+Lemma eligible_fx_ptr_no_ptr : forall f e h ms m cv st,
+  fx_ptr f = true -> decide f e h = InjectPickle ms -> In m (all_members h) ->
+  m_kind m <> KC cv st true.
+Proof.
+  intros f e h ms m cv st F D I K. destruct h as [|c bs]; [discriminate|].
+  assert (N : non_py f (m_kind m) = false).
+  { unfold decide in D. destruct (reduce_in_scope f e (c :: bs)); [discriminate|].
+    assert (Hon : decide_on f e (c :: bs) = InjectPickle ms -> non_py f (m_kind m) = false).
+    { unfold decide_on. intro D'.
+      destruct (existsb c_cinit (c :: bs) || negb (fx_lookup f) && g_cinit e); [discriminate|].
+      destruct (filter (fun m => non_py f (m_kind m)) (all_members (c :: bs))) eqn:ENP; [|discriminate].
+      apply (proj1 (filter_nil_iff _ _ _) ENP). exact I. }
+    destruct (c_auto c) as [[|]|]; [apply Hon; exact D|discriminate|apply Hon; exact D]. }
+  rewrite K in N. simpl in N. rewrite F in N. rewrite orb_true_r in N. discriminate.
+Qed.
+
+(* ------------------------------------------------------------------ checksums *)
+Lemma pad3_head : forall f cs acc a, pad3 f cs = Some acc -> hd_error cs = Some a -> In a acc.
+Proof.
+  intros f cs acc a H Hd. destruct cs as [|x [|y [|z [|w r]]]]; simpl in *; try discriminate.
+  - injection Hd as ->. destruct (fx_pad f); [|discriminate]. injection H as <-. left. reflexivity.
+  - injection Hd as ->. destruct (fx_pad f); [|discriminate]. injection H as <-. left. reflexivity.
+  - injection Hd as ->. injection H as <-. left. reflexivity.
+Qed.
+
+Lemma pad3_fx_total : forall f cs, fx_pad f = true -> (1 <= length cs <= 3)%nat -> exists acc, pad3 f cs = Some acc.
+Proof.
+  intros f cs F L. destruct cs as [|x [|y [|z [|w r]]]]; simpl in *; try lia; rewrite ?F; eexists; reflexivity.
+Qed.
+
+Lemma pad3_incl : forall f cs acc x, pad3 f cs = Some acc -> In x acc -> In x cs.
+Proof.
+  intros f cs acc x H I. destruct cs as [|a [|b [|c [|w r]]]]; simpl in *; try discriminate.
+  - destruct (fx_pad f); [|discriminate]. injection H as <-. simpl in I. intuition.
+  - destruct (fx_pad f); [|discriminate]. injection H as <-. simpl in I. intuition.
+  - injection H as <-. exact I.
+Qed.
+
+Section Dyn.
+Variable atom : Type.
+Variable cv : Type.
+Variable to_py : kind -> cv -> atom.
+Variable from_py : kind -> atom -> option cv.
+Variable czero : cv.
+Variable atom_truth : atom -> bool.
+Variable hash : nat -> list name -> Z.
+Variable atom_eqb : atom -> atom -> bool.
+
+Notation obj := (obj atom cv).
+Notation sval := (sval atom cv).
+Notation pv := (pv atom).
+Notation unpickle := (unpickle atom cv from_py czero atom_truth hash atom_eqb).
+Notation load := (load atom cv from_py czero atom_truth hash atom_eqb).
+Notation load_into := (load_into atom cv from_py czero atom_truth hash atom_eqb).
+Notation set_state := (set_state atom cv from_py atom_truth atom_eqb).
+Notation assign := (assign atom cv from_py).
+Notation update_dict := (update_dict atom cv atom_truth atom_eqb).
+Notation reduce := (reduce atom cv to_py hash).
+Notation reduce_cython := (reduce_cython atom cv to_py hash).
+Notation read_state := (read_state atom cv to_py).
+Notation item_of := (item_of atom cv to_py).
+Notation conv_in := (conv_in atom cv from_py).
+Notation new_obj := (new_obj atom cv czero).
+Notation accepted := (accepted hash).
+
+Lemma existsb_eqb_false : forall chk acc, ~ In chk acc -> existsb (Z.eqb chk) acc = false.
+Proof.
+  intros chk acc H. induction acc as [|a r IH]; [reflexivity|]. simpl.
+  destruct (Z.eqb_spec chk a) as [->|N]; [exfalso; apply H; left; reflexivity|].
+  apply IH. intro I. apply H. right. exact I.
+Qed.
+
+Lemma existsb_eqb_true : forall chk acc, In chk acc -> existsb (Z.eqb chk) acc = true.
+Proof.
+  intros chk acc H. apply existsb_exists. exists chk. split; [exact H|apply Z.eqb_refl].
+Qed.
+
+(* a checksum that is not one of the accepted ones raises PickleError, whatever the state *)
+Lemma unpickle_bad_checksum : forall avail f owner t chk st acc,
+  accepted avail f (all_names owner) = Some acc -> ~ In chk acc ->
+  unpickle avail f owner t chk st = Err EPickle.
+Proof.
+  intros avail f owner t chk st acc A N. unfold M_Pickle.unpickle. rewrite A.
+  rewrite (existsb_eqb_false _ _ N). reflexivity.
+Qed.
+
+Lemma load_into_bad_checksum : forall avail f e owner t rv acc,
+  accepted avail f (all_names owner) = Some acc -> ~ In (rv_chk atom rv) acc ->
+  load_into avail f e owner t rv = Err EPickle.
+Proof.
+  intros avail f e owner t rv acc A N. unfold M_Pickle.load_into, M_Pickle.load. simpl.
+  rewrite (unpickle_bad_checksum _ _ _ _ _ _ _ A N). reflexivity.
+Qed.
+
+(* ---- slots ---- *)
+Definition set_all (sl : member -> sval) (ms : list member) (o : obj) : obj :=
+  fold_left (fun o m => set_slot atom cv o (m_name m) (sl m)) ms o.
+
+Lemma set_all_type : forall sl ms o, o_type atom cv (set_all sl ms o) = o_type atom cv o.
+Proof. intros sl ms. induction ms as [|m r IH]; intro o; simpl; [reflexivity|]. rewrite IH. reflexivity. Qed.
+
+Lemma set_all_dict : forall sl ms o, o_dict atom cv (set_all sl ms o) = o_dict atom cv o.
+Proof. intros sl ms. induction ms as [|m r IH]; intro o; simpl; [reflexivity|]. rewrite IH. reflexivity. Qed.
+
+Lemma get_set_all_notin : forall sl ms o n,
+  ~ In n (map m_name ms) ->
+  get atom cv (o_slots atom cv (set_all sl ms o)) n = get atom cv (o_slots atom cv o) n.
+Proof.
+  intros sl ms. induction ms as [|m r IH]; intros o n H; simpl; [reflexivity|].
+  rewrite IH.
+  - simpl. rewrite name_eqb_neq; [reflexivity|]. intro E. apply H. left. exact E.
+  - intro I. apply H. right. exact I.
+Qed.
+
+Lemma get_set_all_in : forall sl ms o m,
+  NoDup (map m_name ms) -> In m ms ->
+  get atom cv (o_slots atom cv (set_all sl ms o)) (m_name m) = Some (sl m).
+Proof.
+  intros sl ms. induction ms as [|a r IH]; intros o m ND I; [destruct I|].
+  simpl in ND. inversion ND as [|? ? Hn ND']; subst. simpl.
+  destruct I as [->|I].
+  - rewrite get_set_all_notin; [|exact Hn]. simpl. rewrite name_eqb_refl. reflexivity.
+  - apply IH; assumption.
+Qed.
+
+Lemma assign_spec : forall (sl : member -> sval) ms i st o,
+  (forall j m, nth_error ms j = Some m -> nth_error st (i + j) = Some (item_of m (sl m))) ->
+  (forall m, In m ms -> conv_in m (item_of m (sl m)) = Some (sl m)) ->
+  assign ms i st o = Ok (set_all sl ms o).
+Proof.
+  intros sl ms. induction ms as [|a r IH]; intros i st o Hn Hc; [reflexivity|].
+  simpl. pose proof (Hn 0%nat a eq_refl) as H0. rewrite Nat.add_0_r in H0. rewrite H0.
+  rewrite (Hc a (or_introl eq_refl)). apply IH.
+  - intros j m Hj. replace (S i + j)%nat with (i + S j)%nat by lia. apply Hn. exact Hj.
+  - intros m Hm. apply Hc. right. exact Hm.
+Qed.
+
+(* ---- well-formed objects ---- *)
+Definition slot_ok (m : member) (v : sval) : Prop :=
+  match m_kind m, v with
+  | KObj, SObj _ => True
+  | KC _ _ false, SC c => from_py (m_kind m) (to_py (m_kind m) c) = Some c
+  | _, _ => False
+  end.
+
+Definition slot_of (o : obj) (m : member) : sval :=
+  match get atom cv (o_slots atom cv o) (m_name m) with Some v => v | None => SObj PNone end.
+
+Definition wf_obj (o : obj) : Prop :=
+  (forall m, In m (all_members (t_hier (o_type atom cv o))) ->
+     exists v, get atom cv (o_slots atom cv o) (m_name m) = Some v /\ slot_ok m v) /\
+  (o_dict atom cv o = None <-> has_dict (o_type atom cv o) = false).
+
+Lemma slot_ok_conv : forall m v, slot_ok m v -> conv_in m (item_of m v) = Some v.
+Proof.
+  intros m v H. unfold slot_ok in H. unfold M_Pickle.conv_in, M_Pickle.item_of.
+  destruct (m_kind m) as [|c s p] eqn:K; [destruct v; try contradiction; reflexivity|].
+  destruct p; destruct v as [q|c0|]; try contradiction.
+  rewrite H. reflexivity.
+Qed.
+
+Lemma slot_ok_not_dangling : forall m, ~ slot_ok m SDangling.
+Proof. intros m H. unfold slot_ok in H. destruct (m_kind m) as [|c s [|]]; exact H. Qed.
+
+Lemma read_state_spec : forall ms o,
+  (forall m, In m ms -> exists v, get atom cv (o_slots atom cv o) (m_name m) = Some v /\ slot_ok m v) ->
+  read_state ms o = Ok (map (fun m => item_of m (slot_of o m)) ms).
+Proof.
+  intros ms o. induction ms as [|a r IH]; intro H; [reflexivity|]. simpl.
+  destruct (H a (or_introl eq_refl)) as [v [G S]]. unfold slot_of at 1. rewrite G.
+  rewrite IH; [|intros m Hm; apply H; right; exact Hm].
+  destruct v; try reflexivity. exfalso. eapply slot_ok_not_dangling. exact S.
+Qed.
+
+Lemma nth_error_map_app : forall (A B : Type) (g : A -> B) l extra j x,
+  nth_error l j = Some x -> nth_error (map g l ++ extra) (0 + j) = Some (g x).
+Proof.
+  intros A B g l extra j x H. simpl. rewrite nth_error_app1.
+  - apply map_nth_error. exact H.
+  - rewrite map_length. apply nth_error_Some. rewrite H. discriminate.
+Qed.
+
+(* set_state on a fresh object with the state written by reduce *)
+Lemma set_state_fresh : forall h o0 (src : obj) extra,
+  NoDup (all_names h) ->
+  (forall m, In m (all_members h) -> exists v, get atom cv (o_slots atom cv src) (m_name m) = Some v /\ slot_ok m v) ->
+  assign (all_members h) 0 (map (fun m => item_of m (slot_of src m)) (all_members h) ++ extra) o0
+    = Ok (set_all (slot_of src) (all_members h) o0).
+Proof.
+  intros h o0 src extra ND W. apply assign_spec.
+  - intros j m Hj. apply (nth_error_map_app _ _ (fun m0 => item_of m0 (slot_of src m0))). exact Hj.
+  - intros m Hm. destruct (W m Hm) as [v [G S]]. unfold slot_of. rewrite G. apply slot_ok_conv. exact S.
+Qed.
+
+Lemma dict_update_nil : forall d, dict_update atom atom_eqb [] d = d.
+Proof. intro d. unfold dict_update. simpl. apply app_nil_r. Qed.
+
+Definition same_attrs (h : hierarchy) (o1 o2 : obj) : Prop :=
+  o_type atom cv o1 = o_type atom cv o2 /\
+  o_dict atom cv o1 = o_dict atom cv o2 /\
+  forall m, In m (all_members h) ->
+    get atom cv (o_slots atom cv o1) (m_name m) = get atom cv (o_slots atom cv o2) (m_name m).
+
+Lemma effective_own : forall f e c bs ms,
+  decide f e (c :: bs) = InjectPickle ms ->
+  existsb c_getstate (c :: bs) = false -> existsb c_setstate (c :: bs) = false ->
+  effective_reduce f e (c :: bs) = RPickle (c :: bs) /\
+  effective_setstate f e (c :: bs) = SSet (c :: bs).
+Proof.
+  intros f e c bs ms D G S.
+  assert (R : c_reduce c = false).
+  { unfold decide in D. destruct (reduce_in_scope f e (c :: bs)) eqn:E; [discriminate|].
+    unfold reduce_in_scope in E. apply orb_false_iff in E. destruct E as [E _]. simpl in E.
+    apply orb_false_iff in E. apply E. }
+  simpl in S. apply orb_false_iff in S. destruct S as [S1 S2].
+  split.
+  - cbn [effective_reduce]. rewrite R, D. unfold installed. rewrite G. reflexivity.
+  - cbn [effective_setstate]. rewrite S1, D. unfold installed. rewrite G, S2. reflexivity.
+Qed.
+
+(* MAIN: for every layout (any number of members, any inheritance depth), every well-formed
+   object of an eligible class: what pickle/copy rebuild from reduce(o) has the type, the __dict__
+   and every member (inherited ones included) of o *)
+Theorem roundtrip : forall avail f e (o : obj) c bs ms acc,
+  t_hier (o_type atom cv o) = c :: bs ->
+  decide f e (c :: bs) = InjectPickle ms ->
+  existsb c_getstate (c :: bs) = false -> existsb c_setstate (c :: bs) = false ->
+  NoDup (all_names (c :: bs)) ->
+  wf_obj o ->
+  accepted avail f (all_names (c :: bs)) = Some acc -> hd_error avail = Some 0%nat ->
+  exists rv o',
+    reduce f e o = Ok rv /\ load avail f e rv = Ok o' /\ same_attrs (c :: bs) o' o.
+Proof.
+  intros avail f e o c bs ms acc TH D G S ND [W WD] A HD.
+  destruct (effective_own f e c bs ms D G S) as [ER ES].
+  set (h := c :: bs) in *.
+  assert (RS := read_state_spec (all_members h) o).
+  rewrite TH in W. specialize (RS W).
+  assert (CHK : In (hash 0 (map m_name (all_members h))) acc).
+  { unfold M_Pickle.accepted in A. eapply pad3_head; [exact A|].
+    destruct avail as [|a r]; [discriminate|]. simpl in HD. injection HD as ->. reflexivity. }
+  assert (NEWT : forall t, o_type atom cv (new_obj t) = t) by reflexivity.
+  unfold M_Pickle.reduce. rewrite TH, ER. unfold M_Pickle.reduce_cython. rewrite RS.
+  set (st := map (fun m => item_of m (slot_of o m)) (all_members h)).
+  assert (LEN : length st = length (all_members h)) by (unfold st; apply map_length).
+  (* common part: set_state of the fresh object *)
+  assert (SS : forall extra, assign (all_members h) 0 (st ++ extra) (new_obj (o_type atom cv o)) =
+                 Ok (set_all (slot_of o) (all_members h) (new_obj (o_type atom cv o)))).
+  { intro extra. apply set_state_fresh; assumption. }
+  assert (ATTR : forall m, In m (all_members h) ->
+            get atom cv (o_slots atom cv (set_all (slot_of o) (all_members h) (new_obj (o_type atom cv o)))) (m_name m)
+            = get atom cv (o_slots atom cv o) (m_name m)).
+  { intros m Hm. rewrite get_set_all_in; [|exact ND|exact Hm].
+    destruct (W m Hm) as [v [Gv _]]. unfold slot_of. rewrite Gv. reflexivity. }
+  assert (HDT : o_dict atom cv o <> None -> has_dict (o_type atom cv o) = true).
+  { intro NN. destruct (has_dict (o_type atom cv o)) eqn:E; [reflexivity|]. exfalso. apply NN. apply WD. reflexivity. }
+  assert (HDF : o_dict atom cv o = None -> has_dict (o_type atom cv o) = false) by apply WD.
+  clear WD.
+  destruct (o_dict atom cv o) as [[|kv d]|] eqn:OD.
+  - (* empty dict *)
+    assert (HDICT : has_dict (o_type atom cv o) = true) by (apply HDT; discriminate).
+    destruct (any_notnone atom (all_members h) st) eqn:AN.
+    + eexists. eexists. split; [reflexivity|]. split.
+      * unfold M_Pickle.load. simpl rv_owner. simpl rv_type. simpl rv_chk. simpl rv_arg_state. simpl rv_state.
+        unfold M_Pickle.unpickle. fold h. unfold all_names in A. unfold all_names. rewrite A.
+        rewrite (existsb_eqb_true _ _ CHK). rewrite NEWT, TH, ES.
+        unfold M_Pickle.set_state. rewrite <- (app_nil_r st) at 1. rewrite SS.
+        unfold M_Pickle.update_dict. rewrite LEN. rewrite Nat.leb_refl. reflexivity.
+      * split; [apply set_all_type|]. split; [|exact ATTR].
+        rewrite set_all_dict. unfold M_Pickle.new_obj. simpl. rewrite HDICT. reflexivity.
+    + eexists. eexists. split; [reflexivity|]. split.
+      * unfold M_Pickle.load. simpl rv_owner. simpl rv_type. simpl rv_chk. simpl rv_arg_state. simpl rv_state.
+        unfold M_Pickle.unpickle. fold h. unfold all_names in A. unfold all_names. rewrite A.
+        rewrite (existsb_eqb_true _ _ CHK).
+        unfold M_Pickle.set_state. rewrite <- (app_nil_r st) at 1. rewrite SS.
+        unfold M_Pickle.update_dict. rewrite LEN. rewrite Nat.leb_refl. reflexivity.
+      * split; [apply set_all_type|]. split; [|exact ATTR].
+        rewrite set_all_dict. unfold M_Pickle.new_obj. simpl. rewrite HDICT. reflexivity.
+  - (* non-empty dict: appended to the state, restored by __setstate__ *)
+    assert (HDICT : has_dict (o_type atom cv o) = true) by (apply HDT; discriminate).
+    eexists. eexists. split; [reflexivity|]. split.
+    + unfold M_Pickle.load. simpl rv_owner. simpl rv_type. simpl rv_chk. simpl rv_arg_state. simpl rv_state.
+      unfold M_Pickle.unpickle. fold h. unfold all_names in A. unfold all_names. rewrite A.
+      rewrite (existsb_eqb_true _ _ CHK). rewrite NEWT, TH, ES.
+      unfold M_Pickle.set_state. rewrite SS.
+      unfold M_Pickle.update_dict. rewrite app_length. simpl length.
+      replace (Nat.leb (length st + 1) (length (all_members h))) with false
+        by (symmetry; apply Nat.leb_gt; lia).
+      rewrite nth_error_app2 by lia. rewrite LEN, Nat.sub_diag. simpl nth_error. simpl truthy.
+      rewrite set_all_dict. unfold M_Pickle.new_obj at 1. simpl o_dict. rewrite HDICT.
+      rewrite dict_update_nil. reflexivity.
+    + split; [simpl; apply set_all_type|]. split; [reflexivity|]. simpl. exact ATTR.
+  - (* no dict *)
+    assert (HDICT : has_dict (o_type atom cv o) = false) by (apply HDF; reflexivity).
+    destruct (any_notnone atom (all_members h) st) eqn:AN.
+    + eexists. eexists. split; [reflexivity|]. split.
+      * unfold M_Pickle.load. simpl rv_owner. simpl rv_type. simpl rv_chk. simpl rv_arg_state. simpl rv_state.
+        unfold M_Pickle.unpickle. fold h. unfold all_names in A. unfold all_names. rewrite A.
+        rewrite (existsb_eqb_true _ _ CHK). rewrite NEWT, TH, ES.
+        unfold M_Pickle.set_state. rewrite <- (app_nil_r st) at 1. rewrite SS.
+        unfold M_Pickle.update_dict. rewrite LEN. rewrite Nat.leb_refl. reflexivity.
+      * split; [apply set_all_type|]. split; [|exact ATTR].
+        rewrite set_all_dict. unfold M_Pickle.new_obj. simpl. rewrite HDICT. reflexivity.
+    + eexists. eexists. split; [reflexivity|]. split.
+      * unfold M_Pickle.load. simpl rv_owner. simpl rv_type. simpl rv_chk. simpl rv_arg_state. simpl rv_state.
+        unfold M_Pickle.unpickle. fold h. unfold all_names in A. unfold all_names. rewrite A.
+        rewrite (existsb_eqb_true _ _ CHK).
+        unfold M_Pickle.set_state. rewrite <- (app_nil_r st) at 1. rewrite SS.
+        unfold M_Pickle.update_dict. rewrite LEN. rewrite Nat.leb_refl. reflexivity.
+      * split; [apply set_all_type|]. split; [|exact ATTR].
+        rewrite set_all_dict. unfold M_Pickle.new_obj. simpl. rewrite HDICT. reflexivity.
+Qed.
+
+(* the state written by reduce is the member list in sorted order, followed by the dict if any *)
+Theorem reduce_state_order : forall f e (o : obj) c bs ms rv,
+  t_hier (o_type atom cv o) = c :: bs ->
+  decide f e (c :: bs) = InjectPickle ms ->
+  existsb c_getstate (c :: bs) = false -> existsb c_setstate (c :: bs) = false ->
+  wf_obj o -> reduce f e o = Ok rv ->
+  let st := map (fun m => item_of m (slot_of o m)) (all_members (c :: bs)) in
+  rv_chk atom rv = hash 0 (all_names (c :: bs)) /\
+  StronglySorted mle (all_members (c :: bs)) /\
+  ((rv_arg_state atom rv = Some st /\ rv_state atom rv = None) \/
+   (rv_arg_state atom rv = None /\ rv_state atom rv = Some st) \/
+   (exists d, o_dict atom cv o = Some d /\ d <> [] /\
+              rv_arg_state atom rv = None /\ rv_state atom rv = Some (st ++ [PDict d]))).
+Proof.
+  intros f e o c bs ms rv TH D G S [W WD] R st.
+  destruct (effective_own f e c bs ms D G S) as [ER _].
+  rewrite TH in W. pose proof (read_state_spec (all_members (c :: bs)) o W) as RS.
+  unfold M_Pickle.reduce in R. rewrite TH, ER in R. unfold M_Pickle.reduce_cython in R. rewrite RS in R.
+  split; [|split; [apply all_members_sorted|]].
+  - destruct (o_dict atom cv o) as [[|kv d]|]; [destruct (any_notnone _ _ _)| |destruct (any_notnone _ _ _)];
+      injection R as <-; reflexivity.
+  - destruct (o_dict atom cv o) as [[|kv d]|] eqn:OD.
+    + destruct (any_notnone _ _ _); injection R as <-; [right; left|left]; split; reflexivity.
+    + injection R as <-. right. right. exists (kv :: d). split; [reflexivity|]. split; [discriminate|].
+      split; reflexivity.
+    + destruct (any_notnone _ _ _); injection R as <-; [right; left|left]; split; reflexivity.
+Qed.
+
+(* loading a pickle written for layout h1 into a build with layout h2: PickleError unless the
+   writer's checksum is one of the (up to three) accepted by the reader *)
+Theorem cross_layout : forall avail f e (o : obj) h1 h2 t2 rv acc2,
+  reduce_cython h1 o = Ok rv ->
+  accepted avail f (all_names h2) = Some acc2 ->
+  ~ In (hash 0 (all_names h1)) acc2 ->
+  load_into avail f e h2 t2 rv = Err EPickle.
+Proof.
+  intros avail f e o h1 h2 t2 rv acc2 R A N. eapply load_into_bad_checksum; [exact A|].
+  unfold M_Pickle.reduce_cython in R. destruct (read_state (all_members h1) o); [|discriminate].
+  destruct (o_dict atom cv o) as [[|kv d]|]; [destruct (any_notnone _ _ _)| |destruct (any_notnone _ _ _)];
+    injection R as <-; exact N.
+Qed.
+
+(* if the hash happens to separate the two layouts, a changed layout is always detected *)
+Corollary cross_layout_injective : forall avail f e (o : obj) h1 h2 t2 rv acc2,
+  reduce_cython h1 o = Ok rv ->
+  accepted avail f (all_names h2) = Some acc2 ->
+  (forall a, In a avail -> hash a (all_names h2) <> hash 0 (all_names h1)) ->
+  load_into avail f e h2 t2 rv = Err EPickle.
+Proof.
+  intros avail f e o h1 h2 t2 rv acc2 R A SEP. eapply cross_layout; [exact R|exact A|].
+  intro I. unfold M_Pickle.accepted in A. apply (pad3_incl _ _ _ _ A) in I.
+  apply in_map_iff in I. destruct I as [a [E Ia]]. apply (SEP a Ia). exact E.
+Qed.
+
+End Dyn.
+
+(* ------------------------------------------------------------------ refutations (as-is model) *)
+Definition F0 : flags := {| fx_lookup := false; fx_ptr := false; fx_pad := false |}.
+Definition E0 : modenv := {| g_cinit := false; g_reduce := false |}.
+Definition mk_cls (id : N) (ms : list member) (auto : option bool) : cls :=
+  {| c_id := id; c_members := ms; c_cinit := false; c_reduce := false; c_getstate := false;
+     c_setstate := false; c_auto := auto |}.
+Definition nA : name := [97%N].
+Definition nB : name := [98%N].
+Definition kint : kind := KC true false false.
+Definition kcharp : kind := KC true false true.
+
+(* concrete instantiation: atoms and C values are integers *)
+Definition zload := load Z Z (fun _ a => Some a) 0%Z (fun a => negb (Z.eqb a 0)) (fun _ _ => 5%Z) Z.eqb.
+Definition zreduce := reduce Z Z (fun _ c => c) (fun _ _ => 5%Z).
+
+(* 1. a module-level name __cinit__ makes a plain class unpicklable *)
+Lemma module_name_refuted :
+  exists h, documented_rule F0 (hd (mk_cls 0 [] None) h) (tl h) /\
+            decide F0 {| g_cinit := true; g_reduce := false |} h = InjectRaise RCinit [].
+Proof.
+  exists [mk_cls 1 [{| m_name := nA; m_kind := kint |}] None]. split; [|reflexivity].
+  unfold documented_rule. simpl. repeat split; try discriminate.
+  - intros m [<-|[]]. reflexivity.
+  - left. intros m [<-|[]]. reflexivity.
+Qed.
+
+(* 2. auto_pickle(False) on a subclass of an auto-pickled class: the base's reduce is used and the
+      subclass attribute is reset *)
+Definition off_h : hierarchy :=
+  [mk_cls 2 [{| m_name := nB; m_kind := kint |}] (Some false);
+   mk_cls 1 [{| m_name := nA; m_kind := kint |}] None].
+Definition off_o : obj Z Z :=
+  {| o_type := {| t_hier := off_h; t_pydict := false |};
+     o_slots := [(nA, SC 7%Z); (nB, SC 9%Z)]; o_dict := None |}.
+
+Lemma autopickle_off_refuted :
+  exists rv o', zreduce F0 E0 off_o = Ok rv /\ zload [0;1;2]%nat F0 E0 rv = Ok o' /\
+                get Z Z (o_slots Z Z off_o) nB = Some (SC 9%Z) /\
+                get Z Z (o_slots Z Z o') nB = Some (SC 0%Z).
+Proof. eexists. eexists. split; [vm_compute; reflexivity|]. split; [vm_compute; reflexivity|]. split; reflexivity. Qed.
+
+(* 3. a char* member is accepted and comes back as a dangling pointer *)
+Definition ptr_h : hierarchy := [mk_cls 1 [{| m_name := nA; m_kind := kcharp |}] None].
+Definition ptr_o : obj Z Z :=
+  {| o_type := {| t_hier := ptr_h; t_pydict := false |}; o_slots := [(nA, SC 7%Z)]; o_dict := None |}.
+
+Lemma char_ptr_refuted :
+  (exists ms, decide F0 E0 ptr_h = InjectPickle ms) /\
+  exists rv o', zreduce F0 E0 ptr_o = Ok rv /\ zload [0;1;2]%nat F0 E0 rv = Ok o' /\
+                get Z Z (o_slots Z Z o') nA = Some SDangling.
+Proof.
+  split; [eexists; vm_compute; reflexivity|].
+  eexists. eexists. split; [vm_compute; reflexivity|]. split; [vm_compute; reflexivity|]. reflexivity.
+Qed.
+
+(* 4. with one hash algorithm missing the generated module does not compile *)
+Lemma pad_refuted : forall (hash : nat -> list name -> Z) ns, accepted hash [0; 1]%nat F0 ns = None.
+Proof. intros. reflexivity. Qed.
